@@ -23,7 +23,7 @@ def run(chk):
                 'TLC evaluates WellFormed on the bytes of each written .trashinfo (header, escaped Path that decodes to '
                 'exactly the location - absolute, or relative without .. - and the date). (3) real trash-list, '
                 'trash-restore and trash-rm read the same files back and TLC checks each shown path/date against '
-                'Meaning of the bytes. distinct by observation class x content')
+                'Meaning of the bytes. (4) stage time-of-trashing: one trash-put with several arguments while the virtual clock advances with every operation: TLC checks that each DeletionDate lies in the window in which its own argument was handled. distinct by observation class x content')
     chk.assumptions += common.ASSUME
     common.fun_laws(chk)
     common.fun_stage(chk, 'random-names', 'putrb', 150 if quick else 2500)
@@ -32,6 +32,9 @@ def run(chk):
     # for the writer and the readers): what is written must decode, for those readers, to the exact location
     # legal paths (about 1500 bytes) whose percent-encoded form is longer than PATH_MAX: written whole, read back whole
     common.fun_stage(chk, 'long-encoded-paths', 'putrb', 8 if quick else 80, {'n': 3, 'p_long': 1.0, 'utf8_only': True})
+    # one run, several arguments, a clock that moves with every operation: each DeletionDate is the time of trashing of its
+    # own entry (between the first operation on that argument and the one that took it away)
+    common.fun_stage(chk, 'time-of-trashing', 'timed', 40 if quick else 600)
     common.fun_stage(chk, 'custom-dir', 'putrb', 25 if quick else 300, {'td': 'c'})
     common.fun_stage(chk, 'custom-dir-through-link', 'putrb', 25 if quick else 300, {'td': 'clink'})
     ap = alphabet_paths()
